@@ -324,6 +324,8 @@ func (r *runner) run(ctx context.Context, isStream bool, input any, opts ...Opti
 				isSubGraph,
 				cm,
 				isStream,
+				nil,
+				nil,
 			)
 		}
 
@@ -354,16 +356,21 @@ func (r *runner) run(ctx context.Context, isStream bool, input any, opts ...Opti
 			}
 
 			if len(subGraphInterrupts)+len(interruptRerunNodes) > 0 {
+				// completedTasks are already in the channels and their ready successors are in
+				// nextTasks (whose channels have been consumed): fold only the drained tasks and
+				// save nextTasks as pending inputs
 				return nil, r.handleInterruptWithSubGraphAndRerunNodes(
 					ctx,
 					interruptRerunNodes,
 					subGraphInterrupts,
 					interruptAfterNodes,
-					append(completedTasks, newCompletedTasks...),
+					newCompletedTasks,
 					checkPointID,
 					isSubGraph,
 					cm,
 					isStream,
+					interruptBeforeNodes,
+					nextTasks,
 				)
 			}
 
@@ -473,6 +480,8 @@ func (r *runner) handleInterruptWithSubGraphAndRerunNodes(
 	isSubGraph bool,
 	cm *channelManager,
 	isStream bool,
+	interruptBeforeNodes []string,
+	pendingTasks []*task,
 ) error {
 	var rerunTasks, subgraphTasks, otherTasks []*task
 	skipPreHandler := map[string]bool{}
@@ -518,10 +527,15 @@ func (r *runner) handleInterruptWithSubGraphAndRerunNodes(
 		cp.State = state.state
 	}
 	intInfo := &InterruptInfo{
-		State:      cp.State,
-		AfterNodes: interruptAfterNodes,
-		RerunNodes: interruptRerunNodes,
-		SubGraphs:  make(map[string]*InterruptInfo),
+		State:       cp.State,
+		BeforeNodes: interruptBeforeNodes,
+		AfterNodes:  interruptAfterNodes,
+		RerunNodes:  interruptRerunNodes,
+		SubGraphs:   make(map[string]*InterruptInfo),
+	}
+	// tasks that were ready but not submitted: their inputs have left the channels
+	for _, t := range pendingTasks {
+		cp.Inputs[t.nodeKey] = t.input
 	}
 	for _, t := range subgraphTasks {
 		if isStream {
